@@ -232,6 +232,15 @@ Proof.
     eapply exc_step_pre; [|eapply walk_exc; eauto]. reflexivity.
 Qed.
 
+Lemma run_task_exc c s t s' ev : run_task c s t = (s', ev) -> exc_step s s'.
+Proof.
+  intros H. destruct t as [reuse h|h qs ks0|h r]; cbn [run_task] in H.
+  - destruct (is_some (fin_exc s)); [inversion H; subst; left; reflexivity|].
+    destruct reuse; [eapply qon_exc; eauto|eapply walk_exc; eauto].
+  - eapply qon_exc; eauto.
+  - eapply after_prepare_exc; eauto.
+Qed.
+
 Lemma step_exc c s o s' ev : is_next_page o = false -> step c s o = (s', ev) -> exc_step s s'.
 Proof.
   intros NP H. destruct o as [|i r|k| |h0 p|k|pp]; cbn [step] in H; [| | | | | |discriminate].
@@ -240,7 +249,10 @@ Proof.
     destruct (a_done a); [inversion H; subst; left; reflexivity|].
     destruct (a_prep a); [inversion H; subst; exact (submit_exc_step (set_attempts s (mark_done i (attempts s))) _)|].
     destruct (Nat.eqb (a_page a) (page_no s)); [|inversion H; subst; left; reflexivity].
-    apply set_result_exc in H. eapply exc_step_pre; [|exact H]. reflexivity.
+    destruct (resp_current_cases _ _ _ _ _ _ H) as [H'|(k & tag & dcl & reuse & s2 & ev2 & -> & I & Pl & F & Sh & R & -> & ->)].
+    + apply set_result_exc in H'. eapply exc_step_pre; [|exact H']. reflexivity.
+    + apply run_task_exc in R. apply (exc_step_post s s2); [reflexivity|reflexivity|].
+      eapply exc_step_pre; [|exact R]. reflexivity.
   - destruct (nth_error (queue s) k) as [t|]; [|inversion H; subst; left; reflexivity].
     assert (G : exc_step (set_queue s (remove_nth k (queue s))) s').
     { destruct t as [reuse h|h qs ks0|h r]; cbn [run_task] in H.
